@@ -179,6 +179,22 @@ func storeListing(root string) []any {
 	return out
 }
 
+// scratchDir makes a fresh directory below the working directory whose last element is the given name ("" = plain)
+func scratchDir(c map[string]any, prefix string) (top, dir string, err error) {
+	top, err = os.MkdirTemp(".", prefix)
+	if err != nil {
+		return "", "", err
+	}
+	dir = top
+	if v, ok := c["dirname"]; ok && hx.Unhex(v) != "" {
+		dir = top + string(filepath.Separator) + hx.Unhex(v) // not Join: keep a trailing dot or the like as typed
+		if err := os.MkdirAll(dir, 0o777); err != nil {
+			return top, "", err
+		}
+	}
+	return top, dir, nil
+}
+
 func main() {
 	cwd, _ := os.Getwd()
 	// envconfig.Models() falls back to $HOME/.ollama/models for an empty OLLAMA_MODELS and GetBlobsPath creates
@@ -303,13 +319,13 @@ func main() {
 			return map[string]any{"code": 0, "path": hx.Hex(p), "rel": rel(".", p)}
 		case "manifestpath":
 			// build a real cache directory with the given files, then resolve every name against it
-			dir, err := os.MkdirTemp(".", "mp")
+			top, dir, err := scratchDir(c, "mp")
 			if err != nil {
 				return map[string]any{"harness_error": err.Error()}
 			}
-			defer os.RemoveAll(dir)
+			defer os.RemoveAll(top)
 			if b, _ := c["absdir"].(bool); b {
-				dir = filepath.Join(cwd, dir)
+				dir = cwd + string(filepath.Separator) + dir
 			}
 			for _, f := range hx.UnhexList(c["files"]) {
 				p := filepath.Join(dir, f)
@@ -338,12 +354,12 @@ func main() {
 		case "existing":
 			// a real store below the scratch directory; getExistingName iterates over a Go map, so every query is
 			// repeated and the set of distinct answers is reported
-			dir, err := os.MkdirTemp(".", "store")
+			top, dir, err := scratchDir(c, "store")
 			if err != nil {
 				return map[string]any{"harness_error": err.Error()}
 			}
-			defer os.RemoveAll(dir)
-			abs := filepath.Join(cwd, dir)
+			defer os.RemoveAll(top)
+			abs := cwd + string(filepath.Separator) + dir
 			os.Setenv("OLLAMA_MODELS", abs)
 			for _, x := range c["stored"].([]any) {
 				q := hx.UnhexList(x)
@@ -390,13 +406,13 @@ func main() {
 			return map[string]any{"v1": m1.IsValid(), "v2": m2.IsValid(), "ef": m1.EqualFold(m2),
 				"nv1": n1.Valid, "nv2": n2.Valid, "nfq1": n1.FQ, "nfq2": n2.FQ}
 		case "cachehist":
-			dir, err := os.MkdirTemp(".", "ch")
+			top, dir, err := scratchDir(c, "ch")
 			if err != nil {
 				return map[string]any{"harness_error": err.Error()}
 			}
-			defer os.RemoveAll(dir)
+			defer os.RemoveAll(top)
 			if b, _ := c["absdir"].(bool); b {
-				dir = filepath.Join(cwd, dir)
+				dir = cwd + string(filepath.Separator) + dir
 			}
 			var ops []server.VerifC13HOp
 			for _, x := range c["ops"].([]any) {
@@ -423,12 +439,12 @@ func main() {
 			}
 			return map[string]any{"res": res}
 		case "handlers":
-			dir, err := os.MkdirTemp(".", "hs")
+			top, dir, err := scratchDir(c, "hs")
 			if err != nil {
 				return map[string]any{"harness_error": err.Error()}
 			}
-			defer os.RemoveAll(dir)
-			root := filepath.Join(cwd, dir)
+			defer os.RemoveAll(top)
+			root := cwd + string(filepath.Separator) + dir
 			os.Setenv("OLLAMA_MODELS", root)
 			for _, x := range c["seed"].([]any) {
 				m := x.(map[string]any)
